@@ -243,8 +243,10 @@ Lemma gnmi_update1_wf tr n tr' fd e :
 Proof.
   intros Hwf. unfold gnmi_update1.
   destruct (n_upds n) as [|[p0 v0] us]; [discriminate|].
-  destruct (join_prefix_path _ _) as [[|k p]|]; try discriminate.
-  destruct (String.eqb k "meta"); [discriminate|].
+  destruct (join_prefix_path _ _) as [[|k p]|]; try discriminate;
+    [intros H; inversion H; subst; assumption|].
+  destruct (String.eqb k "meta");
+    [destruct p; [intros H; inversion H; subst; assumption|discriminate]|].
   destruct (get tr (k :: p)) as [[old|cs]|] eqn:G.
   - destruct (Z.ltb _ _); [intros H; inversion H; subst; assumption|].
     destruct (_ && _); [intros H; inversion H; subst; assumption|].
@@ -261,8 +263,8 @@ Lemma gnmi_remove1_wf tr n tr' fd e :
 Proof.
   intros Hwf. unfold gnmi_remove1.
   destruct (n_dels n) as [|d ds]; [discriminate|].
-  destruct (join_prefix_path _ _) as [[|k p]|]; try discriminate.
-  destruct (String.eqb k "meta"); [discriminate|].
+  destruct (join_prefix_path _ _) as [p|]; try discriminate.
+  destruct (match p with k :: _ => String.eqb k "meta" | [] => false end); [discriminate|].
   destruct (all_some _); [|discriminate].
   intros H; inversion H; subst. now apply delete_cond_wf.
 Qed.
